@@ -58,13 +58,13 @@ theorem c13b_collect_end_fwd (s : DashIt K) (n fuel : Nat) (acc : List (PathEl K
   simp only [hd, Bool.false_eq_true, if_false, get_input_nil s hcp hin, if_true]
 
 /-- **A closed two-vertex sub-path inside the first dash**: `M p0 L q Z` (`q ≠ p0`) with the pattern on at the offset and
-    the first dash at least as long as `|p0 q| + |q p0|` is returned as `M p0, L q, Z, L p0` – and `dash` does return (no
-    fuel or budget problem), for every lawful scalar. -/
+    the first dash at least as long as `|p0 q| + |q p0|` is returned as `M p0, L q, L p0, Z` (the whole sub-path with its
+    closing line, `ClosePath` last) – and `dash` does return (no fuel or budget problem), for every lawful scalar. -/
 theorem c13b_dash_closed_short (p0 q : Point K) (off : K) (dashes : Array K) (budget : Nat) (it : DashIt K)
     (hit : dashImpl [.MoveTo p0, .LineTo q, .ClosePath] off dashes = some it) (hn : 0 < dashes.size) (hne : q ≠ p0)
     (hact : it.is_active = true) (hge1 : ¬ it.dash_remaining < (Line.mk p0 q).arclen 0)
     (hge2 : ¬ it.dash_remaining - (Line.mk p0 q).arclen 0 < (Line.mk q p0).arclen 0) (hb : 5 ≤ budget) :
-    dash [.MoveTo p0, .LineTo q, .ClosePath] off dashes budget = .ok [.MoveTo p0, .LineTo q, .ClosePath, .LineTo p0] := by
+    dash [.MoveTo p0, .LineTo q, .ClosePath] off dashes budget = .ok [.MoveTo p0, .LineTo q, .LineTo p0, .ClosePath] := by
   obtain ⟨it', a1, a2, a3, a4, a5, a6, a7, a8, a9, a10⟩ := dashImpl_ok [.MoveTo p0, .LineTo q, .ClosePath] off dashes 100000 hn
   rw [hit] at a1
   cases a1
@@ -90,7 +90,7 @@ theorem c13b_dash_closed_short (p0 q : Point K) (off : K) (dashes : Array K) (bu
   have hcurA : sA.current_seg.start = p0 := by subst hsA; rfl
   rw [hcurA] at hstepA
   rw [collect_stash_some n 99998 sA sA _ [] (by subst hsA; rfl) hstepA]
-  -- first segment
+  -- first segment: `LineTo q` goes to the stash, then the closing line is loaded
   obtain ⟨sB, hsB⟩ : ∃ sB : DashIt K, sB = { sA with stash := sA.stash.push (.MoveTo p0) } := ⟨_, rfl⟩
   rw [← hsB]
   have hstB : (sB.state == .ToStash && sB.stash.isEmpty) = false := by subst hsB; simp
@@ -98,55 +98,52 @@ theorem c13b_dash_closed_short (p0 q : Point K) (off : K) (dashes : Array K) (bu
     subst hsB; subst hsA
     show ¬ it.init_dash_remaining < (Line.mk p0 q).arclen 0
     rw [← a5.2.1]; exact hge1
-  have hstepB := step_line_end sB ⟨p0, q⟩ (by subst hsB; subst hsA; rfl) hstB hnlt
   have hactB : sB.is_active = true := by subst hsB; exact hactA
-  rw [if_pos hactB, c13b_get_input_close_ne ({ sB with dash_remaining := sB.dash_remaining - sB.seg_remaining } : DashIt K)
+  have hstepB := step_line_end_stash sB ⟨p0, q⟩ (by subst hsB; subst hsA; rfl) hstB (by subst hsB; subst hsA; rfl) hactB hnlt
+  rw [c13b_get_input_close_ne ({ sB with stash := sB.stash.push (.LineTo (Line.mk p0 q).p1), dash_remaining := sB.dash_remaining - sB.seg_remaining } : DashIt K)
     [] (by subst hsB; subst hsA; exact a10) (by subst hsB; subst hsA; rfl)
     (by subst hsB; subst hsA; exact hne)] at hstepB
-  obtain ⟨sB', hsB'⟩ : ∃ sB' : DashIt K, sB' = ({ sB with dash_remaining := sB.dash_remaining - sB.seg_remaining }
+  obtain ⟨sC, hsC⟩ : ∃ sC : DashIt K, sC = ({ sB with stash := sB.stash.push (.LineTo (Line.mk p0 q).p1), dash_remaining := sB.dash_remaining - sB.seg_remaining }
     : DashIt K).c13b_loadClose [] := ⟨_, rfl⟩
-  rw [← hsB'] at hstepB
-  rw [collect_stash_some n 99997 sB sB' _ [] (by subst hsB; subst hsA; rfl) hstepB]
-  -- closing line
-  obtain ⟨sC, hsC⟩ : ∃ sC : DashIt K, sC = { sB' with stash := sB'.stash.push (.LineTo (Line.mk p0 q).p1) } := ⟨_, rfl⟩
-  rw [← hsC]
-  have hstC : (sC.state == .ToStash && sC.stash.isEmpty) = false := by subst hsC; simp
+  rw [← hsC] at hstepB
+  rw [collect_stash_none n 99997 sB sC [] (by subst hsB; subst hsA; rfl) hstepB]
+  -- closing line: `LineTo p0` goes to the stash, then `ClosePath`
+  have hstC : (sC.state == .ToStash && sC.stash.isEmpty) = false := by subst hsC; subst hsB; subst hsA; simp [DashIt.c13b_loadClose, DashIt.startState]
   have hnltC : ¬ sC.dash_remaining < sC.seg_remaining := by
-    subst hsC; subst hsB'; subst hsB; subst hsA
+    subst hsC; subst hsB; subst hsA
     show ¬ it.init_dash_remaining - (Line.mk p0 q).arclen 0 < (Line.mk q p0).arclen 0
     rw [← a5.2.1]; exact hge2
-  have hstepC := step_line_end sC ⟨q, p0⟩ (by subst hsC; subst hsB'; subst hsB; subst hsA; rfl) hstC hnltC
-  have hactC : sC.is_active = true := by subst hsC; subst hsB'; exact hactB
-  rw [if_pos hactC, c13b_get_input_pending _ (by subst hsC; subst hsB'; rfl),
-    c13b_handle_toStash _ (by subst hsC; subst hsB'; subst hsB; subst hsA; rfl)] at hstepC
-  obtain ⟨sC', hsC'⟩ : ∃ sC' : DashIt K, sC' = ({ sC with dash_remaining := sC.dash_remaining - sC.seg_remaining }
+  have hactC : sC.is_active = true := by subst hsC; exact hactB
+  have hstepC := step_line_end_stash sC ⟨q, p0⟩ (by subst hsC; subst hsB; subst hsA; rfl) hstC
+    (by subst hsC; subst hsB; subst hsA; rfl) hactC hnltC
+  rw [c13b_get_input_pending _ (by subst hsC; rfl),
+    c13b_handle_toStash _ (by subst hsC; subst hsB; subst hsA; rfl)] at hstepC
+  obtain ⟨sD, hsD⟩ : ∃ sD : DashIt K, sD = ({ sC with stash := sC.stash.push (.LineTo (Line.mk q p0).p1), dash_remaining := sC.dash_remaining - sC.seg_remaining }
     : DashIt K).c13b_closedS := ⟨_, rfl⟩
-  rw [← hsC'] at hstepC
-  rw [collect_stash_some n 99996 sC sC' _ [] (by subst hsC; subst hsB'; subst hsB; subst hsA; rfl) hstepC]
+  rw [← hsD] at hstepC
+  rw [collect_stash_none n 99996 sC sD [] (by subst hsC; subst hsB; subst hsA; rfl) hstepC]
   -- playback
-  obtain ⟨sD, hsD⟩ : ∃ sD : DashIt K, sD = { sC' with stash := sC'.stash.push (.LineTo (Line.mk q p0).p1) } := ⟨_, rfl⟩
-  rw [← hsD]
-  have hstashD : sD.stash = #[.MoveTo p0, .LineTo q, .ClosePath, .LineTo p0] := by
-    subst hsD; subst hsC'; subst hsC; subst hsB'; subst hsB; subst hsA
-    show (((it.stash.push (PathEl.MoveTo p0)).push (PathEl.LineTo q)).push PathEl.ClosePath).push (PathEl.LineTo p0) = _
+  have hstashD : sD.stash = #[.MoveTo p0, .LineTo q, .LineTo p0, .ClosePath] := by
+    subst hsD; subst hsC; subst hsB; subst hsA
+    show (((it.stash.push (PathEl.MoveTo p0)).push (PathEl.LineTo q)).push (PathEl.LineTo p0)).push PathEl.ClosePath = _
     rw [a7]; rfl
-  have hixD : sD.stash_ix = 0 := by subst hsD; subst hsC'; subst hsC; subst hsB'; subst hsB; subst hsA; exact a8
+  have hixD : sD.stash_ix = 0 := by subst hsD; subst hsC; subst hsB; subst hsA; exact a8
   obtain ⟨n', fuel', h1, h2⟩ := c13b_collect_replay_cp_fwd 4 sD n 99995 []
-    (by rw [hstashD, hixD]; rfl) (by subst hsD; subst hsC'; rfl)
-    (by subst hsD; subst hsC'; subst hsC; subst hsB'; subst hsB; subst hsA; exact a9)
-    (by subst hsD; subst hsC'; subst hsC; subst hsB'; rfl) (by omega) (by omega)
+    (by rw [hstashD, hixD]; rfl) (by subst hsD; rfl)
+    (by subst hsD; subst hsC; subst hsB; subst hsA; exact a9)
+    (by subst hsD; subst hsC; rfl) (by omega) (by omega)
   rw [h2]
   obtain ⟨fuel'', rfl⟩ : ∃ x, fuel' = x + 1 := ⟨fuel' - 1, by omega⟩
   rw [c13b_collect_end_fwd sD.c13b_afterClose n' fuel'' _ rfl
-    (by subst hsD; subst hsC'; subst hsC; subst hsB'; subst hsB; subst hsA; exact a9) rfl
-    (by subst hsD; subst hsC'; subst hsC; subst hsB'; rfl)]
+    (by subst hsD; subst hsC; subst hsB; subst hsA; exact a9) rfl
+    (by subst hsD; subst hsC; rfl)]
   rw [hstashD, hixD]
   simp
 
 /-- `dash` returns on a closed sub-path over ℝ: `M (0,0) L (1,0) Z` with pattern [4], offset 0 (`steps = 0`) -/
 theorem c13b_exReal_closed_ok : ∃ (_ : Scalar ℝ) (_ : LawfulScalar ℝ) (_ : LawfulHypotSq ℝ),
     dash [.MoveTo ⟨0, 0⟩, .LineTo ⟨1, 0⟩, .ClosePath] (0 : ℝ) #[4] 10
-      = .ok [.MoveTo ⟨0, 0⟩, .LineTo ⟨1, 0⟩, .ClosePath, .LineTo ⟨0, 0⟩] ∧
+      = .ok [.MoveTo ⟨0, 0⟩, .LineTo ⟨1, 0⟩, .LineTo ⟨0, 0⟩, .ClosePath] ∧
     (∀ i, (h : i < (#[4] : Array ℝ).size) → 0 < (#[4] : Array ℝ)[i]) ∧
     (∀ k < 0, prefixSum (#[4] : Array ℝ) k < 0) ∧ (0 : ℝ) ≤ prefixSum #[4] 0 := by
   let _ := realScalar
